@@ -147,3 +147,26 @@ Example ex_pinned_lost :
   | None => False
   end.
 Proof. vm_compute. split; reflexivity. Qed.
+
+(* ---- the peer refuses a data packet, then closes the stream ---- *)
+
+Definition ex_refused_then_close : list event :=
+  [EOpenLocal (str "a") 8 true;
+   EData true (str "a") 0 (str "QUJD");
+   EWrite (str "a") true;
+   EWrite (str "a") false;
+   EWrite (str "a") true;
+   ECloseRemote (str "a");
+   EWrite (str "a") true;
+   ERead (str "a") 64; ERead (str "a") 64].
+
+Example ex_refused_then_close_obs :
+  snd (h_run [] ex_refused_then_close) =
+    [OOpen true; OReply RAck; OWrite true; OWrite false; OWrite false; OReply RAck; OWrite false;
+     ORead (str "ABC") false; ORead [] true].
+Proof. vm_compute. reflexivity. Qed.
+
+(* the hypothesis of C15_peer_close_always_answered with the error pending *)
+Example ex_close_hyp_with_stale_error :
+  exists c, lookup (fst (h_run [] (firstn 5 ex_refused_then_close))) (str "a") = Some c /\ rc_werr c = true.
+Proof. eexists. split; [vm_compute; reflexivity|reflexivity]. Qed.
